@@ -148,8 +148,7 @@ def rule_determine(ctx, mod):
                       "determine(%s.., %s.., shorthand=%s)" % (L1, L2, short_form), why)
 
 
-def rule_from_shorthand(ctx, mod):
-    R = "R-C03-F"
+def rule_from_shorthand(ctx, mod, R="R-C03-F"):
     fi = mod.func("from_shorthand")
     ctx.touch(fi)
     for L in LETTERS:
